@@ -112,10 +112,16 @@ def shard(args):
     kind = servers.FRONTS[front][0]
     nodes = set()
     for cfg in configs(front):
+        if framing == 'tls' and (not cfg.single or cfg.broadcast):
+            continue            # the TLS framing carries no unit id: only a single context is meaningful
         for seq in sequences(depth):
+            if framing == 'tls' and ('UA' in seq or 'U0' in seq):
+                continue
             nodes.add((cfg.name, seq))
             modes = ('pipelined', 'per-read', 'split') if kind == 'stream' else ('per-read',)
-            if front in ('sync-tcp', 'sync-serial'):
+            if framing == 'tls':
+                modes = ('per-read',)       # a TLS record is one PDU: no length field to pipeline or split by
+            if front in ('sync-tcp', 'sync-serial') and framing != 'tls':
                 modes += ('timeout+split',)
             for delivery in modes:
                 run_one(acc, front, framing, cfg, seq, delivery)
@@ -123,7 +129,7 @@ def shard(args):
     # write is answered exactly once with exception 04 echoing the request's ids (same scenario as C10's fault cases)
     from checks import c10
     tmp = Acc()
-    for hosted in (None, (1, 2)):
+    for hosted in ((None, (1, 2)) if framing != 'tls' else ()):
         for bc in (False, True):
             if bc and front.startswith('tw'):
                 continue
